@@ -176,6 +176,23 @@ func init() {
 					val = "x," + sent + ",,9z"
 				case "dup":
 					val = sent + "," + sent
+				case "asc", "desc": // the same set, written in ascending / descending order (a hand-written host; go-plugin's own order is its map's)
+					var vs []int
+					for _, f := range strings.Split(sent, ",") {
+						if n, err := strconv.Atoi(f); err == nil {
+							vs = append(vs, n)
+						}
+					}
+					sort.Ints(vs)
+					var fs []string
+					for _, n := range vs {
+						if p["env"] == "asc" {
+							fs = append(fs, strconv.Itoa(n))
+						} else {
+							fs = append([]string{strconv.Itoa(n)}, fs...)
+						}
+					}
+					val = strings.Join(fs, ",")
 				}
 				x.Put("envval", val)
 				os.Setenv("PLUGIN_PROTOCOL_VERSIONS", val)
@@ -405,6 +422,24 @@ func init() {
 				for _, pl := range small {
 					for _, c := range [][2]string{{"1", "grpc"}, {"1", "alt"}} {
 						out = append(out, explore.Params{"host": h.String(), "plug": pl.String(), "gs": c[0], "pa": c[1], "env": "sent", "rep": "0", "allow": "netrpc"})
+					}
+				}
+			}
+			// hosts that offer many versions (40 and 70 entries), the common one anywhere in the list
+			for _, n := range []int{40, 70} {
+				many := verSide{legacy: -1, stale: -1, vers: []int{2}}
+				for v := 101; v < 101+n; v++ {
+					many.vers = append(many.vers, v)
+				}
+				for _, pl := range []verSide{{legacy: -1, stale: -1, vers: []int{1, 2}}, {legacy: 1, stale: -1, vers: []int{100 + n}}, {legacy: -1, stale: -1, vers: []int{100 + n/2, 3}}} {
+					for _, env := range []string{"sent", "asc", "desc"} {
+						r := 1
+						if env == "sent" {
+							r = reps + 2
+						}
+						for i := 0; i < r; i++ {
+							out = append(out, explore.Params{"host": many.String(), "plug": pl.String(), "gs": "1", "pa": "grpc", "env": env, "rep": strconv.Itoa(i)})
+						}
 					}
 				}
 			}
